@@ -19,7 +19,7 @@ from mcheck.props import c02
 ID = "C18"
 RULE = (
     "programs {one call, three calls, nested calls with a caught exception, recursion, generator rebinding its parameter over "
-    "3 resumptions, yield-from, coroutine with two awaits, a mix, two interleaved generators} x rates {None,1,2,3,10,100} x every RNG answer vector over "
+    "3 resumptions, yield-from, coroutine with two awaits, a mix, two interleaved generators, generators between plain calls, coroutines around a generator} x rates {None,1,2,3,10,100} x every RNG answer vector over "
     "{0,1,N-1} (complete up to 6 draws, else <= 3 deviations from all-sample and from never-sample), one-call program: "
     "every r in range(N); state = (program, rate, answer vector) execution, transition = one draw; oracle: logged traces are a "
     "faithful ordered subset of the ground-truth frames, no residue, rate None/1 = unsampled, exact expected traced "
@@ -90,6 +90,8 @@ PROGRAMS: List[Tuple[str, str, bool]] = [
     ("coroutine", "DRIVE(M.coro(1))", False),
     ("mixed", "(M.top(1), list(M.gen_rebind(2)), M.rec(1))", False),
     ("two-generators-interleaved", "INTERLEAVE(M.gen_rebind(1), M.gen_inner(2))", False),
+    ("generators-and-calls", "([list(M.gen_rebind(i)) for i in (1, 2)], list(M.gen_outer(7)), M.f(0))", False),
+    ("coroutine-and-generator", "(DRIVE(M.coro(1)), list(M.gen_rebind('x')), DRIVE(M.coro([2])))", False),
 ]
 RATES = [None, 1, 2, 3, 10, 100]
 
